@@ -57,7 +57,9 @@ func (p *pg) genC15() (Config, Plan) {
 	c := p.baseConfig("C15")
 	c.Strict = true
 	c.SegSize = []int{64, 256, 4096, 65536, 65536 + 4096, 1 << 20, 4 << 20}[p.r.Intn(7)]
-	huge := p.tier == "thorough" && p.r.Intn(40) == 0 || p.r.Intn(400) == 0
+	// the documented 64 MiB maximum: a few exact boundary cases in every batch of
+	// runs (encoded size = maximum + delta, computed through the codec at run time)
+	huge := p.r.Intn(25) == 0
 	var plan Plan
 	n := 2 + p.r.Intn(6)
 	for i := 0; i < n; i++ {
@@ -80,8 +82,9 @@ func (p *pg) genC15() (Config, Plan) {
 					sz = boundarySizes[p.r.Intn(len(boundarySizes))]
 				}
 				if huge && i == n/2 {
-					// around the documented 64 MiB maximum (encoded size = payload + ~30 bytes)
-					sz = 64<<20 - 64 + p.r.Intn(96)
+					op.Key = "enc64m"
+					op.K = []int{-9, -8, -7, -4, -1, 0, 1, 8}[p.r.Intn(8)]
+					op.Var = 0 // legal start index
 					huge = false
 				}
 			}
@@ -119,6 +122,9 @@ func (p *pg) genC08() (Config, Plan) {
 			if p.r.Intn(2) == 0 {
 				op.N = 4096 + p.r.Intn(60000)
 			}
+		} else if op.Kind == "set" && p.r.Intn(3) == 0 {
+			// values large enough to push the bucket out of bolt's inline form
+			op.N = 1000 + p.r.Intn(3000)
 		}
 		plan.Ops = append(plan.Ops, op)
 	}
